@@ -430,7 +430,7 @@ def check(case, cc):
         # ---- (a) every file on its own
         solo_res, solo_why, solo_trees = {}, {}, {}
         out_solo = os.path.join(tmp, 'out_solo')
-        for i in by_name:
+        for i in reversed(by_name):       # (another order than the directory walks: state carried from file to file shows as a difference)
             own = os.path.join(tmp, 'own_%d' % i)
             with c11.capture_errors(module.logger) as cap:
                 res, err = guarded(lambda: WriteLAS.convert_dir_or_file_to_las(
